@@ -199,16 +199,20 @@ func mutateBytes(rt *rapid.T, b []byte, hdr int) []byte {
 		switch rapid.IntRange(0, 5).Draw(rt, "mut") {
 		case 0: // flag byte
 			out[1] = rapid.Byte().Draw(rt, "flags")
-		case 1: // bit flip anywhere in the body
+		case 1, 2: // bit flip / byte set in the body, only at bytes that are currently non-zero: the zero bytes of a
+			// small frame are mostly the high bytes of 4-byte lengths, and making one of them non-zero has the decoder
+			// allocate 16 MiB..2 GiB before it notices that the input is short (C04 probes that; such inputs never
+			// decode and teach this clause nothing)
 			if len(out) > hdr {
 				p := rapid.IntRange(hdr, len(out)-1).Draw(rt, "pos")
-				// low bits only: flipping a high bit of a length field makes the decoder allocate gigabytes before it
-				// notices the input is short (C04 probes that); such inputs never decode and teach this clause nothing
-				out[p] ^= 1 << uint(rapid.IntRange(0, 3).Draw(rt, "bit"))
+				if out[p] != 0 {
+					if rapid.Bool().Draw(rt, "flip") {
+						out[p] ^= 1 << uint(rapid.IntRange(0, 7).Draw(rt, "bit"))
+					} else {
+						out[p] = rapid.SampledFrom([]byte{0, 1, 2, 0x7f, 0x80, 0xff}).Draw(rt, "val")
+					}
+				}
 			}
-		case 2: // byte set anywhere
-			p := rapid.IntRange(0, len(out)-1).Draw(rt, "pos")
-			out[p] = rapid.SampledFrom([]byte{0, 1, 2, 3, 4, 8}).Draw(rt, "val")
 		case 3: // direction bit / version
 			out[0] = rapid.SampledFrom([]byte{2, 3, 4, 5, 65, 66, 0x82, 0x83, 0x84, 0x85, 0xC1, 0xC2}).Draw(rt, "v")
 		case 4: // opcode
